@@ -58,6 +58,17 @@ CLAIMED = {
          'pda_simulate_terminates_partial (finite epsilon-reachable universe).', '6 C15'),
  'C20': ('proof', 'Theorems isomorphic1_iff, isomorphic_iff (both routines terminate within their fuel and answer True exactly when the reachable parts '
          'are isomorphic, every exploration order), iso_symm, iso_lang, iso_rename, isomorphic_agree.', '6 C20'),
+ 'C13': ('proof', 'Theorems own_product_ok, own_complement_ok, own_reverse_ok, own_minimal_quotient_ok, own_minimal_hopcroft_ok, own_language_ok, '
+         'own_chomsky_ok (+ own_chomsky_struct_ok, own_chomsky_ok_le3): the object-level checker models accept the object the generator function '
+         'returns. The text layer (printer -> parser on the answer key) and the remaining exercises (NFA->DFA, DFA->regexp, CYK table, derivations) are '
+         'carried by the tie: apply_command of notebooks/make_notebook.py on generated references + the shipped notebooks. Three recorded findings '
+         '(KNOWN_FINDINGS.json).', '6 C13'),
+ 'C19': ('proof', 'Order independence is proved per operation (c19_nfa_accepts, c19_nfa_words, c19_nfaToDfa, c19_hopcroft, c19_minimizers_agree, '
+         'c19_toRegexp, c19_elimUnit, c19_isomorphic, c19_pda_accepts: identical value / same classes / same language for every scheduler). Argument '
+         'immutability at the alias sites is proved in the heap micro-model (repetitionCopied_frame, concatCopied_frame, *_operand(s)_intact; the '
+         'original shared versions are proved to mutate: *_mutates). PARTIAL: heap-level immutability outside the modelled alias sites, history '
+         'independence and process-level hash-seed independence are carried by the harness (argument snapshots around every call, repeated calls, '
+         'logging on/off, random call prefixes, in-place edits, 2-8 fresh processes with different PYTHONHASHSEED).', '6 C19'),
  'C14': ('proof', 'Theorems product_valid/product_*_lang, complement_*, mapStates_*, noPrefix_*, makeTotal_*, freshState_fresh and the '
          'finite-language helper specs (lang*_spec, wordsOfLength_spec, wordsUpTo_spec). and reachableStates_zero/pos, removeUnreachable_spec, noExtend_spec, reverse_valid, reverse_lang.', '6 C14'),
 }
